@@ -139,7 +139,12 @@ def series_pairs(res, oid, pairs, G, tol, minprec=6, group_input=False, order=18
     canary_seen = False
     t00 = time.time()
     per_sign = []
-    tmax = tmax_of(pv)
+    tmax = tmax_of(pv, G, prefix, group_input)
+    if tmax is None:
+        for entry, _, _ in pairs:
+            res.add("%s/%s" % (oid, entry), "error" if not expect_fail else "canary-not-refuted", "jet", 0.0,
+                    "cannot derive the range of the small-angle branch from its switch condition")
+        return
     try:
         for sg in signs:
             ctx = jet_ctx(G, sg, order, prefix, group_input)
@@ -198,17 +203,43 @@ def series_pairs(res, oid, pairs, G, tol, minprec=6, group_input=False, order=18
         res.add(oid, "canary-refuted" if canary_seen else "canary-not-refuted", "jet", 0.0)
 
 
-def tmax_of(pv):
-    """largest rotation norm on a small-angle path: sqrt of the switch constant the *code* compares against"""
-    if pv is None or not getattr(pv, "switch", None):
+def tmax_of(pv, G=None, prefix="a", group_input=False):
+    """Largest scaling parameter t on a small-angle path, derived from the comparison the *code* makes: each switch atom
+    `p(inputs) < c` is expanded under the substitution a = t u; p must become k t^m, and then t <= (c/k)^(1/m)."""
+    if pv is None or not getattr(pv, "atoms", None) or G is None:
         return TMAX
-    import math
-    cs = [c for (key, c), outc in pv.switch.items() if (outc - {"UN"}) <= {"LT", "EQ"}]
-    if not cs:
-        return TMAX
-    c = max(cs)
-    r = Fraction(math.isqrt(int(c * 10 ** 30)) + 1, 10 ** 15)
-    return r
+    best = None
+    for (cond, choice, xdesc, c, outc) in pv.atoms:
+        if cond.op != "fcmp" or c is None or not (0 < c <= Fraction(1, 100)):
+            continue
+        if not ((outc - {"UN"}) <= {"LT", "EQ"}):
+            continue
+        pred, a, b = cond.args
+        node = a if b.op == "const" else b if a.op == "const" else None
+        if node is None:
+            continue
+        cc = (b if b.op == "const" else a).args[0]
+        try:
+            ctx = jet_ctx(G, 1, 24, prefix, group_input)
+            j = jet.to_jet(ctx, node)
+            lp = j.lp.reduce(full=True)
+        except Exception:
+            return None
+        if not lp.t:
+            return None
+        mexp = lp.min_exp(ctx.t)
+        lead = jet.coeff(ctx, lp, mexp)
+        kk = lead.const_value()
+        if kk is None or kk <= 0 or mexp <= 0:
+            return None
+        # k t^m (1 + O(t)) <= cc   ->  t <= (cc/k)^(1/m), rounded up; 1% inflation covers the higher-order terms of a
+        # non-monomial switch expression on the tiny ranges concerned (cc <= 1e-2)
+        val = float(cc / kk) ** (1.0 / mexp)
+        if not lp.single_term():
+            val *= 1.01
+        r = Fraction(int(val * 10 ** 15) + 2, 10 ** 15)
+        best = r if best is None else min(best, r)
+    return best if best is not None else TMAX
 
 
 def _keepmask(ctx, unit_atoms):
